@@ -695,15 +695,15 @@ theorem ola_obj_eq_spec (size hop : Nat) (hs : 0 < size) (h0 : 0 < hop) (hh : ho
       (overlapAddListObj Bs size? hop? p normalize).out =
           olaSpec (gainSpec size hop normalize w?) (wndSpec size w?) size hop Bs ∧
       (overlapAddListObj Bs size? hop? p normalize).err = none) ∧
-    (∀ e, resolveOlaObj size p = .error e →
+    (∀ e, resolveOlaObj size p = .error e → e ≠ .windowItems →
       overlapAddListObj Bs size? hop? p normalize = ⟨[], some e⟩) := by
   constructor
   · intro w? hres hw
     rw [overlapAddListObj_eq Bs size? hop? p normalize size hsz w? hres]
     exact ola_eq_spec size hop hs h0 hh Bs hB size? hop? hsz hhop (ofResolved w?) w?
       (resolveWnd_ofResolved size w?) hw normalize
-  · intro e he
-    exact overlapAddListObj_err Bs size? hop? p normalize size hsz e he
+  · intro e he hne
+    exact overlapAddListObj_err Bs size? hop? p normalize size hsz e he hne
 
 /-- **C09.1, callable iterable windows** (the corollary a changed resolution rule breaks): an
 object that is callable, not a `Stream`, and whose call returns `size` numbers `w` gives the sum
@@ -1195,6 +1195,52 @@ example : (runOpsMut [.new [("size", .int 4)], .build 0 [("hop", .int 1)], .buil
     = [[("size", .int 4), ("hop", .int 1)], [("size", .int 4), ("hop", .int 1)]] := by decide
 example : (runChains [.new [("size", .int 4)], .derive 0 [("hop", .int 2)], .build 0 [], .build 1 [("wnd", .none)]]).procs
     = [[[("size", .int 4)], []], [[("size", .int 4)], [("hop", .int 2)], [("wnd", .none)]]] := by decide
+
+section r4_opaque
+variable {K : Type} [Field K] [LT K] [DecidableLT K] [DecidableEq K]
+
+/-- **C09.7f** window items that are not numbers (a list of parameter tuples, of strings …):
+`list(wnd)` succeeds, so nothing is raised before the first ARITHMETIC on an item.
+With normalisation that is `abs(item)`: TypeError at the first `next`.  Without normalisation the
+length check comes first (ValueError "Incompatible window size" for `n ≠ size`); then the first
+block that has an item raises the TypeError before any sample when `hop < size` (the first addition
+to the memory; for `hop = size` nothing is ever added and the outcome depends on the Python type of
+the samples — outside the model) — and with ZERO blocks nothing is ever computed: the `size - hop` zeros of the length clause, no exception.  (Round 3 had modelled
+"TypeError at once" here; the zero-block case showed the real code does not.) -/
+theorem ola_opaque_window (size hop : Nat) (h0 : 0 < hop) (Bs : List (List K))
+    (size? hop? : Option Nat) (hsz : detectSize size? Bs = some size) (hhop : hop?.getD size = hop)
+    (o : WObj K) (n : Nat) (hc : callStep size o = .iterable (.opaque (n + 1))) :
+    overlapAddListObj Bs size? hop? (.obj o) true = ⟨[], some .windowItems⟩ ∧
+    (n + 1 ≠ size → overlapAddListObj Bs size? hop? (.obj o) false = ⟨[], some .windowSize⟩) ∧
+    (n + 1 = size → Bs = [] →
+      (overlapAddListObj Bs size? hop? (.obj o) false).out = List.replicate (size - hop) 0 ∧
+      (overlapAddListObj Bs size? hop? (.obj o) false).err = none) ∧
+    (n + 1 = size → hop < size → ∀ b rest, Bs = b :: rest → b ≠ [] →
+      overlapAddListObj Bs size? hop? (.obj o) false = ⟨[], some .windowItems⟩) := by
+  have hop0 : hop ≠ 0 := by omega
+  have hoi : opaqueItems size (.obj o : PyWnd K) = some (n + 1) := by simp [opaqueItems, hc]
+  refine ⟨?_, ?_, ?_, ?_⟩
+  · simp [overlapAddListObj, hsz, hhop, hoi, olaOpaque, hop0]
+  · intro hne
+    simp [overlapAddListObj, hsz, hhop, hoi, olaOpaque, hne]
+  · intro he hB
+    subst hB
+    simp only [overlapAddListObj, hsz, hhop, hoi, olaOpaque, he, Bool.false_eq_true, if_false,
+      ne_eq, not_true_eq_false, and_true]
+    rw [pyDrop_nat]
+    simp [List.drop_replicate]
+  · intro he _ b rest hB hb
+    subst hB
+    have : b.isEmpty = false := by cases b <;> simp_all
+    simp [overlapAddListObj, hsz, hhop, hoi, olaOpaque, he, this]
+
+end r4_opaque
+
+/-- non-vacuity: a tuple of parameter tuples as `wnd` -/
+example : (overlapAddListObj ([] : List (List ℚ)) (some 3) (some 1)
+    (.obj (WKind.pyTuple.mk (fun _ => .other) (.opaque 3))) false).out = [0, 0] := by decide +kernel
+example : (overlapAddListObj ([[1, 2, 3]] : List (List ℚ)) (some 3) (some 1)
+    (.obj (WKind.pyTuple.mk (fun _ => .other) (.opaque 3))) false).err = some .windowItems := by decide +kernel
 
 section r4_tables
 variable {K : Type}
